@@ -97,6 +97,8 @@ def roots(tier, seed):
             if "dev" not in c and c["options"].get("maxfev", 10 ** 9) <= 60 and c["n"] <= 2:
                 c["explore"] = 1
     out += ctrl.roots(tier)
+    from .. import cover
+    out += cover.roots_for(tier)
     return alpha.permute(out, seed)
 
 
